@@ -1,0 +1,20 @@
+//go:build verif
+
+// Contracts (machine-checked specifications) for package moq, consumed by the
+// verification-condition generator in /verif/govc. Comment-only: with the
+// build tag off this file does not exist for the compiler, with it on it
+// contributes nothing but the package clause.
+package moq
+
+//@ func moq.parseInterfaceName -> ifaceName, mockName
+//@   props C20
+//@   safety C19
+//@   ensures no-colon: !contains(namePair, ":") ==> ifaceName == namePair && mockName == namePair + "Mock"
+//@   ensures colon-iface: contains(namePair, ":") ==> ifaceName == namePair[:indexOf(namePair, ":")]
+//@   ensures colon-mock: contains(namePair, ":") ==> mockName == namePair[indexOf(namePair, ":")+1:]
+
+//@ func moq.Mocker.mockPkgName
+//@   props C10
+//@   requires m != nil && m.registry != nil
+//@   ensures explicit: m.cfg.PkgName != "" ==> r == m.cfg.PkgName
+//@   ensures default: m.cfg.PkgName == "" ==> r == m.registry.srcPkgName
